@@ -114,6 +114,49 @@ def pool():
     return _pool
 
 
+_canon_memo = {}
+
+
+def canon(t):
+    """alpha-normal form of a formula: bound-variable names, patterns and qids are ignored (z3 bodies are de Bruijn terms)"""
+    k = t.get_id()
+    r = _canon_memo.get(k)
+    if r is not None:
+        return r
+    if z3.is_quantifier(t):
+        r = hash(("Q", t.is_forall(), t.is_lambda() if hasattr(t, "is_lambda") else False, t.num_vars(),
+                  tuple(str(t.var_sort(i)) for i in range(t.num_vars())), canon(t.body())))
+    elif z3.is_var(t):
+        r = hash(("V", z3.get_var_index(t), str(t.sort())))
+    elif z3.is_app(t):
+        d = t.decl()
+        if t.num_args() == 0:
+            r = hash(("C", str(t), str(t.sort())))
+        else:
+            r = hash(("A", d.name(), d.kind(), tuple(canon(c) for c in t.children())))
+    else:
+        r = hash(("X", str(t)))
+    if len(_canon_memo) > 400000:
+        _canon_memo.clear()
+    _canon_memo[k] = r
+    return r
+
+
+def syntactically_implied(pc, hyps, atom):
+    """the goal literally occurs (up to renaming of bound variables) among the hypotheses or their top-level conjuncts"""
+    target = canon(atom)
+    stack = list(pc) + list(hyps)
+    seen = 0
+    while stack and seen < 20000:
+        h = stack.pop()
+        seen += 1
+        if canon(h) == target:
+            return True
+        if z3.is_and(h):
+            stack.extend(h.children())
+    return False
+
+
 def discharge(obligations, timeout_ms=10000, second=True, want_model=True):
     """-> list of result dicts aligned with obligations"""
     tasks, results = [], [None] * len(obligations)
@@ -121,7 +164,21 @@ def discharge(obligations, timeout_ms=10000, second=True, want_model=True):
         if z3.is_true(ob.goal):
             results[i] = {"name": ob.name, "verdict": "proved", "backend": "syntactic", "seconds": 0.0, "model": None, "reason": ""}
             continue
-        for text in to_smt2(ob):
+        if syntactically_implied(ob.pc, [], ob.goal):
+            results[i] = {"name": ob.name, "verdict": "proved", "backend": "syntactic(alpha-equivalent hypothesis)", "seconds": 0.0,
+                          "model": None, "reason": "", "parts": 1}
+            continue
+        parts = expand_goal(ob.goal)
+        pending = []
+        for hs, atom in parts:
+            if syntactically_implied(ob.pc, hs, atom):
+                continue
+            pending.append(to_smt2_parts(ob.pc, hs, atom, ob.observables or ()))
+        if not pending:
+            results[i] = {"name": ob.name, "verdict": "proved", "backend": "syntactic(alpha-equivalent hypothesis)", "seconds": 0.0,
+                          "model": None, "reason": "", "parts": len(parts)}
+            continue
+        for text in pending:
             tasks.append((i, (ob.name, text, timeout_ms, want_model, second)))
     if tasks:
         if len(tasks) <= 2 or os.environ.get("PYVC_SERIAL"):
